@@ -78,6 +78,8 @@ func panicClass(out string) string {
 		msg = msg[:j]
 	}
 	switch {
+	case strings.Contains(msg, "must contain a QUICTransportParametersExtension"):
+		return "no_qtp"
 	case strings.Contains(msg, "doesn't fit into 62 bits"):
 		return "varint_range"
 	case strings.Contains(msg, "deadlock"):
@@ -94,7 +96,7 @@ func (rn *runner) Exec(op string) string {
 	if os.Getenv("DIAL_INPROC") == "1" {
 		return execOp(op)
 	}
-	ctx, cancel := context.WithTimeout(context.Background(), 60*time.Second)
+	ctx, cancel := context.WithTimeout(context.Background(), 20*time.Second)
 	defer cancel()
 	cmd := exec.CommandContext(ctx, os.Args[0], "-test.run", "^TestChild$", "-test.count=1", "-test.timeout", "0")
 	cmd.Env = append(os.Environ(), "DIAL_OP="+op, "GOMAXPROCS=2")
@@ -208,6 +210,14 @@ func deriveSpec(base, der string) (*quic.QUICSpec, bool) {
 					}
 				}
 			}
+		case "noqtp": // a ClientHelloSpec without the quic_transport_parameters extension (documented as invalid)
+			var keep []tls.TLSExtension
+			for _, e := range spec.ClientHelloSpec.Extensions {
+				if _, ok := e.(*tls.QUICTransportParametersExtension); !ok {
+					keep = append(keep, e)
+				}
+			}
+			spec.ClientHelloSpec.Extensions = keep
 		case "rot": // rotate the transport parameter list by n (a derived order)
 			if q := qtpExt(&spec); q != nil && len(q.TransportParameters) > 0 {
 				m := n % len(q.TransportParameters)
@@ -382,7 +392,9 @@ func clientConfig(id string) (*quic.Config, bool) {
 	case "idle":
 		return &quic.Config{MaxIdleTimeout: 7 * time.Second, HandshakeIdleTimeout: 3 * time.Second, KeepAlivePeriod: time.Second}, true
 	case "size":
-		return &quic.Config{InitialPacketSize: 1300, DisablePathMTUDiscovery: true}, true
+		return &quic.Config{InitialPacketSize: 1240, DisablePathMTUDiscovery: true}, true
+	case "nopmtud":
+		return &quic.Config{DisablePathMTUDiscovery: true}, true
 	case "dgram":
 		return &quic.Config{EnableDatagrams: true, EnableStreamResetPartialDelivery: true}, true
 	case "v2":
@@ -393,7 +405,7 @@ func clientConfig(id string) (*quic.Config, bool) {
 	return nil, false
 }
 
-var cliNames = []string{"nil", "def", "win", "idle", "size", "dgram", "v2", "v21"}
+var cliNames = []string{"nil", "def", "win", "idle", "size", "dgram", "v2", "v21", "nopmtud"}
 
 func parseFaults(s string) ([]e2e.Fault, bool) {
 	if s == "-" || s == "" {
@@ -759,8 +771,11 @@ func (s *scen) moveData(conn *quic.Conn) (up, down string) {
 		return "E:write", down
 	}
 	st.Close()
-	b, _ := io.ReadAll(st)
+	b, rerr := io.ReadAll(st)
 	down = fmt.Sprintf("%d:%s:%s", len(b), h8(pattern(s.seed, 's')), h8(b))
+	if rerr != nil {
+		down += ":" + canonErr(rerr)
+	}
 	select {
 	case got := <-s.srvData:
 		l, hh, _ := strings.Cut(got, ":")
@@ -1119,6 +1134,9 @@ func genDer(r *vh.Rand, base string) string {
 	}
 	var toks []string
 	add := func(s string) { toks = append(toks, s) }
+	if r.Chance(8) { // outside the property's family: the model has to predict the rejection
+		return []string{"supp:15", "supp:1.15", "iscidx:aabbcc", "iscidx:00", "dcid:5", "dcid:7", "dcid:5,tok:16", "min:1100", "dcid:1,scid:0"}[r.Intn(9)]
+	}
 	n := 1 + r.Intn(3)
 	used := map[int]bool{}
 	for len(toks) < n {
@@ -1129,7 +1147,7 @@ func genDer(r *vh.Rand, base string) string {
 		used[k] = true
 		switch k {
 		case 0:
-			add(fmt.Sprintf("scid:%d", []int{0, 1, 3, 4, 8, 11, 20}[r.Intn(7)]))
+			add(fmt.Sprintf("scid:%d", []int{0, 3, 4, 8, 11, 20}[r.Intn(6)])) // not 1 or 2: connection IDs of successive dials on one transport would collide
 		case 1:
 			add(fmt.Sprintf("dcid:%d", []int{0, 8, 9, 12, 16, 20}[r.Intn(6)]))
 		case 2:
@@ -1159,9 +1177,13 @@ func genDer(r *vh.Rand, base string) string {
 
 func (rn *runner) GenOp(r *vh.Rand, i int) string {
 	seed := r.U64() >> 16
-	srv := srvNames[r.Pick(40, 10, 8, 6, 8, 6, 6, 6, 0, 0)]
+	srv := srvNames[r.Pick(36, 10, 7, 5, 7, 5, 6, 6, 12, 6)]
 	if r.Chance(12) {
-		return fmt.Sprintf("cmp ccfg=%s faults=%s srv=%s seed=%d", cliNames[r.Intn(len(cliNames))], genFaults(r), srv, seed)
+		ccfg := cliNames[r.Intn(len(cliNames))]
+		if ccfg == "v2" && srv == "v1" {
+			srv = "def" // no common version: not a scenario of this property
+		}
+		return fmt.Sprintf("cmp ccfg=%s faults=%s srv=%s seed=%d", ccfg, genFaults(r), srv, seed)
 	}
 	base := baseNames[r.Pick(12, 10, 10, 12, 10, 12, 10, 3, 3, 3)]
 	n := 1 + r.Pick(40, 35, 25)
